@@ -390,6 +390,12 @@ void QXmppIncomingClient::handleStanza(const QDomElement &nodeRecv)
             }
         }
     } else if (ns == ns_client) {
+        // stanzas are only accepted (bound, answered, routed) on authenticated streams
+        if (d->jid.isEmpty()) {
+            warning(u"Received a stanza on an unauthenticated stream"_s);
+            return;
+        }
+
         if (nodeRecv.tagName() == u"iq") {
             const QString type = nodeRecv.attribute(u"type"_s);
             const auto id = nodeRecv.attribute(u"id"_s);
